@@ -11,35 +11,37 @@ Fixpoint set_cc (n : nat) (v : Z) (l : list Z) : list Z :=
   | _ :: r, O => v :: r
   | x :: r, S k => x :: set_cc k v r
   end.
-Record pf_acc := mkPf { pf_head : list event; pf_rest : list event; pf_cc : list Z; pf_voice : Z; pf_ch : Z }.
+Record pf_acc := mkPf { pf_head : list event; pf_rest : list event; pf_cc : list Z; pf_cc_ch : list Z; pf_voice : Z; pf_voice_ch : Z }.
 Definition pf_step (tp : Z) (a : pf_acc) (e : event) : pf_acc :=
   let t := e_time e - tp in
   match e_type e with
   | Meta | SysEx =>
-      if t <? 0 then mkPf (pf_head a ++ [set_time e 0]) (pf_rest a) (pf_cc a) (pf_voice a) (pf_ch a)
-      else mkPf (pf_head a) (pf_rest a ++ [set_time e t]) (pf_cc a) (pf_voice a) (pf_ch a)
+      if t <? 0 then mkPf (pf_head a ++ [set_time e 0]) (pf_rest a) (pf_cc a) (pf_cc_ch a) (pf_voice a) (pf_voice_ch a)
+      else mkPf (pf_head a) (pf_rest a ++ [set_time e t]) (pf_cc a) (pf_cc_ch a) (pf_voice a) (pf_voice_ch a)
   | NoteOn =>
-      if t <? 0 then a else mkPf (pf_head a) (pf_rest a ++ [set_time e t]) (pf_cc a) (pf_voice a) (pf_ch a)
+      if t <? 0 then a else mkPf (pf_head a) (pf_rest a ++ [set_time e t]) (pf_cc a) (pf_cc_ch a) (pf_voice a) (pf_voice_ch a)
   | Voice =>
-      if t <? 0 then mkPf (pf_head a) (pf_rest a) (pf_cc a) (e_v1 e) (e_ch e)
-      else mkPf (pf_head a) (pf_rest a ++ [set_time e t]) (pf_cc a) (pf_voice a) (pf_ch a)
+      if t <? 0 then mkPf (pf_head a) (pf_rest a) (pf_cc a) (pf_cc_ch a) (e_v1 e) (e_ch e)
+      else mkPf (pf_head a) (pf_rest a ++ [set_time e t]) (pf_cc a) (pf_cc_ch a) (pf_voice a) (pf_voice_ch a)
   | ControllChange =>
       if t <? 0 then
-        mkPf (pf_head a) (pf_rest a)
-             (if (0 <=? e_v1 e) && (e_v1 e <? 128) then set_cc (Z.to_nat (e_v1 e)) (e_v2 e) (pf_cc a) else pf_cc a)
-             (pf_voice a) (e_ch e)
-      else mkPf (pf_head a) (pf_rest a ++ [set_time e t]) (pf_cc a) (pf_voice a) (pf_ch a)
+        if (0 <=? e_v1 e) && (e_v1 e <? 128) then
+          (* the value as the writer will send it (0..127), on the channel it was set on *)
+          mkPf (pf_head a) (pf_rest a) (set_cc (Z.to_nat (e_v1 e)) (value_range 0 (e_v2 e) 127) (pf_cc a))
+               (set_cc (Z.to_nat (e_v1 e)) (e_ch e) (pf_cc_ch a)) (pf_voice a) (pf_voice_ch a)
+        else a
+      else mkPf (pf_head a) (pf_rest a ++ [set_time e t]) (pf_cc a) (pf_cc_ch a) (pf_voice a) (pf_voice_ch a)
   | _ => a
   end.
-Fixpoint restore_ccs (no : Z) (ch : Z) (ccs : list Z) : list event :=
+Fixpoint restore_ccs (no : Z) (chs : list Z) (ccs : list Z) : list event :=
   match ccs with
   | [] => []
-  | v :: r => (if v <? 0 then [] else [ev_cc 0 ch no v]) ++ restore_ccs (no + 1) ch r
+  | v :: r => (if v <? 0 then [] else [ev_cc 0 (hd 0 chs) no v]) ++ restore_ccs (no + 1) (tl chs) r
   end.
 Definition play_from (tp : Z) (evs : list event) : list event :=
-  let a := fold_left (pf_step tp) evs (mkPf [] [] (repeat (-1) 128) (-1) 0) in
-  pf_head a ++ restore_ccs 0 (pf_ch a) (pf_cc a)
-  ++ (if pf_voice a >=? 0 then [ev_voice 0 (pf_ch a) (pf_voice a)] else []) ++ pf_rest a.
+  let a := fold_left (pf_step tp) evs (mkPf [] [] (repeat (-1) 128) (repeat 0 128) (-1) 0) in
+  pf_head a ++ restore_ccs 0 (pf_cc_ch a) (pf_cc a)
+  ++ (if pf_voice a >=? 0 then [ev_voice 0 (pf_voice_ch a) (pf_voice a)] else []) ++ pf_rest a.
 
 (* get_logs_str *)
 Fixpoint join_lines (l : list (list ch)) : list ch :=
@@ -64,7 +66,8 @@ Definition run_source (src : list ch) : res song :=
 (* generate(): flush_tie_notes (pending tied groups of every track), then play_from_all_track *)
 Definition tracks_for_writer (s : song) : list (list event) :=
   map (fun t => let evs := tr_events (check_tie_notes (s_timebase s) t) in
-                if s_play_from s <? 0 then evs else play_from (s_play_from s) evs) (s_tracks s).
+                (* play_from_all_track sorts by time first: "latest" means latest in time *)
+                if s_play_from s <? 0 then evs else play_from (s_play_from s) (events_sort evs)) (s_tracks s).
 
 Definition compile (src : list ch) : res (list byte * list ch) :=
   do s <- run_source src;
